@@ -87,8 +87,46 @@ def zero_read_switch(body, fl):
     return out
 
 
+_EOF_CTOR = {}
+
+
 def eof_error_blocks(body):
     """Blocks calling io::Error::new(ErrorKind::UnexpectedEof, ..)."""
+    out = set()
+    for bb, t in body.calls():
+        if "std::io::error::Error::new" in callee_names(t) and t["args"]:
+            c = op_const(t["args"][0])
+            txt = c["c"] if c else ""
+            if c is None:
+                l = op_local(t["args"][0])
+                for bb2, i2, s2 in body.stmts():
+                    if s2["k"] == "assign" and s2["place"]["l"] == l and s2["rv"]["k"] == "agg":
+                        txt = s2["rv"].get("variant", "")
+                    if s2["k"] == "assign" and s2["place"]["l"] == l and s2["rv"]["k"] == "use" and op_const(s2["rv"]["op"]):
+                        txt = op_const(s2["rv"]["op"])["c"]
+            if "UnexpectedEof" in txt:
+                out.add(bb)
+    # ... or calling a private helper of the crate that does nothing but build that error (`fn unexpected_eof(msg) -> ..Error`)
+    prog = body.prog
+    for bb, t in body.calls():
+        f = callee(t)
+        hb = prog.bodies.get((f or {}).get("inst") or (f or {}).get("def")) if f else None
+        if hb is None or hb is body or hb.crate != body.crate or hb.raw.get("pub") or hb.raw.get("exported") or hb.kind not in ("Fn", "AssocFn"):
+            continue
+        key = (id(prog), hb.id)
+        if key not in _EOF_CTOR:
+            g = Cfg(hb)
+            rets = [x for x in hb.reachable() if hb.blocks[x]["t"]["k"] == "return"]
+            inner = eof_error_blocks_local(hb)
+            # every way through the helper builds the error, there is no loop, and nothing else of the crate is called
+            _EOF_CTOR[key] = bool(inner) and not g.loops and all(not (set(rets) & reach(g.succs, [0], avoid=list(inner))) for _ in (0,)) and \
+                ("Error" in hb.local_ty(0)) and not any((callee(t2) or {}).get("def", "").startswith(hb.crate + "::") for _, t2 in hb.calls())
+        if _EOF_CTOR[key]:
+            out.add(bb)
+    return out
+
+
+def eof_error_blocks_local(body):
     out = set()
     for bb, t in body.calls():
         if "std::io::error::Error::new" in callee_names(t) and t["args"]:
